@@ -1,7 +1,9 @@
 /-
   The client's high-level tree operations (`aioftp/client.py`): `make_directory`, `stat`/`exists`,
-  `list` (one level and `recursive=True`), `upload`, `download`, `remove`, transcribed as written —
-  including the `relative` computation of `upload` that forgets the destination's parents (finding F5).
+  `list` (one level and `recursive=True`), `upload`, `download`, `remove`, transcribed as written.  The
+  `relative = …` computation of `upload` is not transcribed by hand: the translator reads the assignments off
+  the source (`Generated.uploadRelative`) and `evalRel` gives each recognised expression its meaning (the
+  pinned tree's expressions forgot the destination's parents, finding F5, repaired in /repo bcdced1).
 
   The remote side is the server as a logged-in, all-permission session sees it: a tree `Fs`, the
   connection's working directory and whether MLST/MLSD are present in `commands_mapping`.  Every `srv*`
@@ -13,6 +15,7 @@
 -/
 import AioftpModel.Model.Paths
 import AioftpModel.Model.FsMem
+import AioftpModel.Generated.Client
 
 namespace Model
 namespace ClientTree
@@ -270,17 +273,40 @@ def uploadFile (l : Local) (r : Remote) (source destination : PPath) : M Remote 
       | .error e => .error e
       | .ok _ => .ok res.2
 
-/-- `relative` exactly as written: `destination.name / path.relative_to(source)` with `write_into`,
-    `path.relative_to(source.parent)` without.  `destination`'s parents do not occur. -/
-def relativeOf (source destination path : PPath) (writeInto : Bool) : M PPath :=
-  if writeInto then
+/-- meaning of the right-hand sides `relative = <expr>` the translator may meet in `upload`; an expression
+    it does not know evaluates to an error, so no theorem about a shape it cannot read goes through -/
+def evalRel (e : String) (source destination path : PPath) : M PPath :=
+  if e = "destination / path.relative_to(source)" then
+    match path.relativeTo? source with
+    | none => .error .valueError
+    | some rel => .ok (destination.join rel)
+  else if e = "destination.name / path.relative_to(source)" then
     match path.relativeTo? source with
     | none => .error .valueError
     | some rel => .ok ((PPath.parse destination.name).join rel)
-  else
+  else if e = "path.relative_to(source.parent)" then
     match path.relativeTo? source.parent with
     | none => .error .valueError
     | some rel => .ok rel
+  else .error .valueError
+
+/-- does the guard the assignment sits under hold? ("" = unconditional) -/
+def guardHolds (g : String) (writeInto : Bool) : Bool :=
+  g = "" || (g = "write_into" && writeInto) || (g = "not write_into" && !writeInto)
+
+/-- `relative` for a table of (guard, expression) assignments: the first whose guard holds -/
+def relativeOfWith (tbl : List (String × String)) (source destination path : PPath) (writeInto : Bool) : M PPath :=
+  match tbl.find? (fun ge => guardHolds ge.1 writeInto) with
+  | none => .error .valueError
+  | some ge => evalRel ge.2 source destination path
+
+/-- `relative` as the source computes it now -/
+def relativeOf (source destination path : PPath) (writeInto : Bool) : M PPath :=
+  relativeOfWith Generated.uploadRelative source destination path writeInto
+
+/-- the assignments of the pinned tree (finding F5) -/
+def oldUploadRelative : List (String × String) :=
+  [("write_into", "destination.name / path.relative_to(source)"), ("not write_into", "path.relative_to(source.parent)")]
 
 /-- body of `async for path in self.path_io.list(src)`; returns the remote and the directories appended
     to `sources`.  The nested `self.upload(path, relative, write_into=True)` is entered with a `path` that
